@@ -25,7 +25,7 @@ TECHNIQUE = "property-based testing (Hypothesis) with an independent inventory o
 LEVEL_TEXT = ("Exploration: thousands of generated cell histories per run; for every step every element (incl. H, O) and the net "
               "charge are summed over all reservoirs of the before- and after-dumps and compared to 1e-6 relative; no amount negative.")
 FLOORS = {"quick": 200, "thorough": 3000}
-SHARDS = {"quick": 8, "thorough": 16}
+SHARDS = {"quick": 4, "thorough": 4}
 BUDGET = {"quick": 110, "thorough": 1600, "replay": 1}
 DBS = {"quick": ("phreeqc.dat", "phreeqc.dat", "phreeqc.dat", "wateq4f.dat", "pitzer.dat"),
        "thorough": ("phreeqc.dat", "phreeqc.dat", "wateq4f.dat", "pitzer.dat")}
@@ -130,11 +130,13 @@ def check_step(info, D0, D1, phases, gfw_h2o=18.016):
     if not (abs(az - bz) <= RTOL * zs):
         raise Violation("charge_balance", "cell %d net charge: after %.15g, before %.15g, difference %.3e (scale %.6g eq)" %
                         (info["cell"], az, bz, az - bz, zs))
-    # no amount negative anywhere in the after-dump
+    # "No reactant amount (phase, gas component, exchanger, kinetic reactant) is ever negative": every stored entity of
+    # these kinds in the dump after the step (not only the ones of this cell), pure-phase / solid-solution component
+    # moles, gas component moles, exchanger totals, kinetic -m
     for key, ent in D1.items():
-        if key[0] == "USE" or key[1] is None or key[1] < 0:
+        if key[0] not in ("EXCHANGE", "GAS_PHASE", "EQUILIBRIUM_PHASES", "SOLID_SOLUTIONS", "KINETICS"):
             continue
-        if key[0] not in ("SOLUTION", "EXCHANGE", "SURFACE", "GAS_PHASE", "EQUILIBRIUM_PHASES", "SOLID_SOLUTIONS", "KINETICS"):
+        if key[1] is None or key[1] < 0:
             continue
         for label, v in R.entity_inventory(ent, phases)[2]:
             if v < 0 or v != v:
